@@ -209,8 +209,14 @@ func (w *Worker) flush(done bool) {
 	}
 }
 
-// Finish writes the final result.
+// Finish writes the final result. It must be deferred directly (defer w.Finish()): if the test is panicking the
+// result is written as unfinished, so that the orchestrator reports a broken worker instead of a quiet pass.
 func (w *Worker) Finish() {
+	if r := recover(); r != nil {
+		w.Res.Notes = append(w.Res.Notes, fmt.Sprintf("worker panicked: %v", r))
+		w.flush(false)
+		panic(r)
+	}
 	w.flush(true)
 	if w.out == "" {
 		data, _ := json.MarshalIndent(&w.Res, "", " ")
